@@ -22,5 +22,8 @@ package index
 
 //@ func (*SlimIndex).RangeGet
 //@   property C12
-//@   opt kinds=post,frame
-//@   requires si != nil
+//@   opt kinds=post,frame,pre(RangeGet)
+//@   requires si != nil && wf_query(&si.SlimTrie) && len(key) <= 100000000
+//@   requires si.SlimTrie.inner.NodeTypeBM != nil ==> wf_leaves(&si.SlimTrie) && si.SlimTrie.encoder != nil
+//@   ensures si.SlimTrie.inner.NodeTypeBM == nil ==> result0 == "" && !result1
+//@   ensures !rg_found(&si.SlimTrie, key) ==> result0 == "" && !result1
